@@ -28,21 +28,34 @@ Definition table_size_fixed (evs : list cevent) : Prop :=
 Definition request_on (c : cst) (id : N) : option crequest :=
   match find (fun x => ct_sid x =? id) (cc_ctxs hpack_state c) with Some x => Some (ct_req x) | None => None end.
 
+(* what a caller can submit (the inputs Props/C04.v covers): every field that goes out is made of bytes and leaves
+   room for the encoder's uint32 sums *)
+Definition enc_ok (rq : crequest) : bool :=
+  forallb (fun kv => bytes_ok (fst kv) && bytes_ok (snd kv) && (len (fst kv) + len (snd kv) + 32 <? 2 ^ 31)) (request_fields rq).
+Definition requests_ok (evs : list cevent) : Prop := forall tag rq q, In (CEvSubmit tag rq q) evs -> enc_ok rq = true.
+
 (* (2) the header blocks the client writes, decoded in order by an RFC 7541 decoder, are the
-   requests: pseudo-headers, then the fields in order, lower-cased, minus the connection-specific ones *)
+   requests: pseudo-headers, then the fields in order, lower-cased, minus the connection-specific ones.
+   [Corrected, proved as Props/C02.v C02_requests_intact. The first version started the decoder in
+   `dtable_init (server_table_limit first)`, i.e. with the table's maximum size dt_max already at the announced
+   value. By RFC 7541 4.2 / 6.3 the maximum size starts at 4096 and changes only when the ENCODER signals it with a
+   dynamic table size update; what the server's SETTINGS changes is the limit such an update may go up to
+   (spec_set_limit). The hypothesis requests_ok was missing: the statement is about requests made of bytes.
+   The general statement, with later SETTINGS_HEADER_TABLE_SIZE changes, is C02_requests_decode.] *)
 Definition c02_requests_intact : Prop :=
   forall cfg first evs,
-    cl_settings_deserialize false first <> None -> table_size_fixed evs ->
+    cl_settings_deserialize false first <> None -> table_size_fixed evs -> requests_ok evs ->
     let c := cli_run cfg first evs in
     let tr := cli_trace c in
     exists t,
-      spec_decode_blocks (dtable_init (server_table_limit first)) (header_blocks tr)
+      spec_decode_blocks (spec_set_limit (dtable_init c_defaultHeaderTableSize) (server_table_limit first)) (header_blocks tr)
       = Some (map (fun id => match request_on c id with
                              | Some rq => map (fun kv => (fst kv, snd kv, false)) (request_fields rq)
                              | None => []
                              end) (header_ids tr), t).
 
-(* (2') the same for requests whose field names are made of letters, digits and '-' *)
+(* (2') the first version of (2), for requests whose field names are made of letters, digits and '-'
+   [planned when ToLower still damaged other names; superseded by (2), kept for the record - not proved] *)
 Definition plain_name (k : bytes) : bool :=
   forallb (fun c => ((48 <=? c) && (c <=? 57)) || ((65 <=? c) && (c <=? 90)) || ((97 <=? c) && (c <=? 122)) || (c =? 45)) k.
 Definition plain_request (rq : crequest) : bool := forallb (fun kv => plain_name (fst kv)) (cq_fields rq).
